@@ -208,6 +208,23 @@ class CodecScenario:
             return obj.fields[attr]
         if isinstance(obj, R) and obj.kind == "boundmethod" and attr == "__func__":
             return obj.fields["func"]
+        if isinstance(obj, R) and obj.kind == "boundmethod" and attr in ("__qualname__", "__name__", "__module__", "__wrapped__") and isinstance(obj.fields.get("func"), R):
+            return self.on_attr(obj.fields["func"], attr, node, st)  # a bound method forwards attribute reads to its function
+        if isinstance(obj, R) and obj.kind == "module" and attr == "__name__":
+            return obj.fields["name"]
+        if isinstance(obj, R) and obj.kind in ("callable_obj", "value", "builtinfunc", "property", "module") and attr.startswith("__") and attr.endswith("__"):
+            # an instance with __call__, a constant, a builtin function, a property object: the dunder attributes it has are
+            # the ones the world gave it (a functools.partial or a callable instance has no __qualname__ / __name__)
+            if attr in obj.fields:
+                return obj.fields[attr]
+            if attr == "__class__":
+                return S("kind:" + obj.kind)
+            if attr in ("__doc__",):
+                return K(None)
+            st.pending = st.pending or "AttributeError"
+            return U(f"{obj.kind} object has no attribute {attr}")
+        if isinstance(obj, S) and obj.name.startswith("kind:") and attr in ("__name__", "__qualname__"):
+            return K(obj.name[5:])
         return RepoInterp.on_attr(self.ri, obj, attr, node, st)
 
     def on_subscript(self, obj: V, key: V, node: ast.AST, st: State) -> Optional[V]:
@@ -270,6 +287,12 @@ class CodecScenario:
             return a
         if d == "isinstance" and len(args) == 2:
             return self._isinstance(args[0], args[1])
+        if d in ("inspect.ismodule", "inspect.isclass", "inspect.isfunction", "inspect.isbuiltin", "inspect.ismethod", "inspect.isroutine") and len(args) == 1 and isinstance(args[0], (R, K)):
+            kinds = {"ismodule": ("module",), "isclass": ("cls", "td"), "isfunction": ("func",), "isbuiltin": ("builtinfunc",), "ismethod": ("boundmethod",),
+                     "isroutine": ("func", "builtinfunc", "boundmethod")}[d.split(".")[1]]
+            return K(isinstance(args[0], R) and args[0].kind in kinds)
+        if d in ("reprlib.repr", "repr", "str") and len(args) == 1 and isinstance(args[0], R) and args[0].kind in ("value", "callable_obj", "module", "builtinfunc", "property"):
+            return K(f"<{args[0].kind}>")
         if d == "callable" and len(args) == 1:
             a = args[0]
             if isinstance(a, R):
